@@ -991,3 +991,62 @@ func bindOnceRule(r *engine.Report, p *engine.Program, rule string) {
 			"from the hit edge of the reservedServices / listenerRegistry lookups the registration is unreachable; lookups and registration run in one listenerLock write section", why)
 	}
 }
+
+// adjacencyAfterInsertion: in runProtocol the adjacency rows of a new link (knownConnectionCosts)
+// are written only after this session was inserted into the connection table, i.e. after it passed
+// the "already connected" test — a session that is about to be refused writes nothing.
+func adjacencyAfterInsertion(p *engine.Program) (bool, string) {
+	rp := p.Func("(*netceptor.Netceptor).runProtocol")
+	conns := p.Field("netceptor", "Netceptor", "connections")
+	kcc := p.Field("netceptor", "Netceptor", "knownConnectionCosts")
+	if rp == nil || conns == nil || kcc == nil {
+		return false, "runProtocol anchors not found"
+	}
+	var ins ssa.Instruction
+	for _, a := range engine.FieldAccessesIn(rp, conns) {
+		if a.Kind == engine.AccMapUpdate {
+			ins = a.Instr
+		}
+	}
+	var writes []ssa.Instruction
+	for _, a := range engine.FieldAccessesIn(rp, kcc) {
+		if a.Kind == engine.AccMapUpdate {
+			writes = append(writes, a.Instr)
+		}
+	}
+	if ins == nil || len(writes) < 2 {
+		return false, fmt.Sprintf("insertion found: %v, adjacency writes: %d", ins != nil, len(writes))
+	}
+	if hit := engine.Reach(rp, nil, nil, func(in ssa.Instruction) bool { return in == ins }, func(in ssa.Instruction) bool { return isOneOf(in, writes) }); hit != nil {
+		return false, "the link's cost rows can be written at " + descInstr(p, hit) + " before the session is inserted into the connection table: a session that is then refused (ID already connected on another backend) has already overwritten the live link's cost in the local row, which no flooded update ever repairs"
+	}
+	return true, ""
+}
+
+// adjacencyMapsAreFresh: every map installed as a row of knownConnectionCosts is made here
+// (make(map...)), never a map decoded from a peer's message (which may be nil or shared).
+func adjacencyMapsAreFresh(p *engine.Program) (bool, string, int) {
+	kcc := p.Field("netceptor", "Netceptor", "knownConnectionCosts")
+	if kcc == nil {
+		return false, "knownConnectionCosts not found", 0
+	}
+	n := 0
+	var bad []string
+	for _, a := range p.FieldAccesses(kcc) {
+		mu, ok := a.Instr.(*ssa.MapUpdate)
+		if !ok || a.Kind != engine.AccMapUpdate || engine.IsMock(a.Fn) {
+			continue
+		}
+		if _, isMap := mu.Value.Type().Underlying().(*types.Map); !isMap {
+			continue // an element of a row
+		}
+		n++
+		if _, isMk := engine.Unwrap(mu.Value).(*ssa.MakeMap); !isMk {
+			bad = append(bad, engine.FuncName(a.Fn)+" at "+p.Pos(mu.Pos()))
+		}
+	}
+	if len(bad) > 0 {
+		return false, "a row of knownConnectionCosts is installed from something other than make(map) in " + strings.Join(bad, ", ") + ": a peer's \"Connections\":null leaves a nil row, and the next write into that row (a handshake as that node) panics the daemon", n
+	}
+	return n > 0, "no row installation found", n
+}
